@@ -50,3 +50,9 @@ Check (eq_refl : fk_spec = fun p j =>
     (mkIso (Rotz (j4 q)) (mkV3 (p_a2 p) 0 0)))
     (mkIso (Roty (j5 q)) (mkV3 0 0 (p_c3 p))))
     (mkIso (Rotz (j6 q)) (mkV3 0 0 (p_c4 p)))).
+
+(** joint vectors that differ by whole turns (|q| >> 2 pi) give the same tool pose: the sign corrections are integers *)
+From Coq Require Import List.
+From VF Require Import Proofs.KinP Proofs.SoundP.
+Theorem C03_fwd_periodic : forall p (s' s : list R), Forall2 (is_rep PI) s' s -> fwd p (j6_of s') = fwd p (j6_of s).
+Proof. exact fwd_periodic. Qed.
